@@ -75,6 +75,7 @@ def probes_for(rng, n, blob=False):
     for j in sorted({0, 1, 15, 16, 17, 31, 32, n // 2, n - 1}):
         if 0 <= j < n: p.append("t%d" % j)
     p += ["x1", "x16", "x%d" % rng.randint(2, 200)]
+    p += ["j1", "j%d" % rng.randint(10 ** 7, 10 ** 8)]     # stored bytes replaced by plaintext JSON (12 and 19 bytes)
     pos = {0, 15, 16, n - 17, n - 16, n - 1, rng.randrange(n), rng.randrange(n)}
     for q in sorted(pos):
         if 0 <= q < n: p.append("f%d.%d" % (q, rng.randint(0, 7)))
@@ -109,6 +110,7 @@ def run(ctx):
         cov["unencrypted_file_types"] = meta["unencrypted"]
         cov["kdf_password_argument"] = meta["kdf_password_argument"]
         cov["password_flow_unchanged"] = meta["password_flow"]
+        cov["read_verifies_id"] = meta["read_verifies_id"]
     try:
         model = vlib.build_model("C04")
     except RuntimeError as e:
@@ -194,7 +196,9 @@ def run(ctx):
         nprobe_tamper = len([p for p in pr if not p.startswith("u")])
         bad = [(p, c) for p, c in zip(pr, pres) if not p.startswith("u") and c not in ERR]
         if bad:
-            viol.append(("tampered ciphertext accepted by the decoder: " + str(bad[:3]), case, o[:300], None))
+            kinds = {"t": "truncation", "x": "extension", "f": "bit flip", "j": "stored bytes replaced by plaintext JSON"}
+            viol.append(("tampered %s ciphertext accepted by the decoder (content returned instead of an error): %s" % (kind, ", ".join(sorted({kinds[p[0]] for p, _ in bad}))),
+                         dict(case, accepted_probes=bad[:6]), o[:300], None))
         for c in pres: bump("probe/" + c)
         if kind == "blob" and z != "n" and len(data) == 0:
             bump("empty_compressed_blob_corner_rt_" + f["rt"])
@@ -287,6 +291,19 @@ def run(ctx):
                 mism.append(("key file", a, b, km[i]))
         cov.setdefault("keyfile_fields", f.get("fields"))
 
+    # tampered key files: modified data / salt / scrypt parameters, fields of another key file
+    tl = ["kft %d %s %s" % (rng.randint(1, 10 ** 6), hexpw(rng.choice(BASE_PW_PLAIN + BASE_PW_WS)), hexpw("other pw")) for _ in range(3 if thorough else 1)]
+    for a, b in zip(tl, run_lines(impl, tl, "kft")):
+        st, f = fields(b)
+        evaluations += len(f)
+        if st != "ok" or f.get("base") != "ok":
+            mism.append(("key file tamper case failed", a, b[:300], "")); continue
+        for name, c in f.items():
+            if name == "base": continue
+            bump("keyfile_tamper/" + c)
+            if c in ("ok", "otherkey", "diff"):
+                viol.append(("tampered key file (%s) opens with the password%s" % (name, " and yields a DIFFERENT key" if c != "ok" else ""), {"cases": [a], "mutation": name}, b, None))
+
     # ---------------------------------------------------------------- E. key-management histories
     nh = 8 if thorough else 3
     hl, hm, hops = [], [], []
@@ -322,6 +339,10 @@ def run(ctx):
             must = [x for x in (p + " ", p + "\n", p + "\r\n", p.rstrip(" \t\n\r\x0c\x0b"), " " + p) if x != p]
             pick = list(dict.fromkeys(must[: (5 if thorough else 3)] + rng.sample(nm, min(len(nm), 6 if thorough else 2))))
             ops += ["o:" + x for x in pick] + ["o:" + p]
+        if rng.random() < (0.7 if thorough else 0.5):
+            # a key file made elsewhere (foreign master key) is planted in the key directory: its
+            # password must not open the repository (the config file authenticates the master key)
+            ops += ["f:evil password", "o:evil password"] + (["o:" + next(iter(alive.values()))] if alive else [])
         ops += ["o:" + p for p in pws[:2]] + ["m:1", "m:0"]
         pwid = {}
         def enc(tok, model_side):
@@ -376,8 +397,8 @@ def run(ctx):
         for v in j["tamper_violations"]:
             swap = v["probe"].startswith("swap")
             sig = None
-            if swap and v["outcome"] == "diff":
-                sig = SIG_PACK if v["type"] == "data" else SIG_SWAP
+            if swap and v["outcome"] == "diff" and v["type"] == "data":
+                sig = SIG_PACK      # snapshot / index substitution is repaired: a plain violation now
             viol.append(("tampered %s file: %s of %s returned %s content instead of an error (read: %s)" % (v["type"], v["probe"].split(":")[0], v["id"][:8], "different" if v["outcome"] == "diff" else "the original", v["read"]),
                          {"cases": [a], "detail": v}, json.dumps(v), sig))
         sw = j.get("swap_snapshots")
@@ -385,7 +406,7 @@ def run(ctx):
             swap_seen[sw["get_file"]] = swap_seen.get(sw["get_file"], 0) + 1
             cov.setdefault("swap_snapshots_replay", []).append(sw)
             if sw["get_file"] == "returns-other-content":
-                viol.append(("two snapshot files swapped: get_file(s1) returns s2's content without error; check --read-data: %s" % sw["check_read_data"], {"cases": [a], "detail": sw}, json.dumps(sw), SIG_SWAP))
+                viol.append(("two snapshot files swapped: get_file(s1) returns s2's content without error; check --read-data: %s" % sw["check_read_data"], {"cases": [a], "detail": sw}, json.dumps(sw), None))
             elif not sw["get_file"].startswith("err"):
                 viol.append(("two snapshot files swapped: get_file outcome " + sw["get_file"], {"cases": [a], "detail": sw}, json.dumps(sw), None))
         nontriv.add(a)
@@ -399,8 +420,8 @@ def run(ctx):
                 mism.append(("model substitution witness", "swap", x, ""))
         # the implementation must behave like one of the two modelled reads
         for k in swap_seen:
-            if k not in ("returns-other-content", "err:idmismatch"):
-                mism.append(("substitution replay matches neither the unchecked nor the id-checked model read", "e2e", k, ""))
+            if k != "err:idmismatch" and k != "returns-other-content":   # the latter is already a violation
+                mism.append(("substitution replay does not match the id-checked model read", "e2e", k, ""))
 
     cov.update({"evaluations": evaluations, "distinct_nontrivial": len(nontriv),
                 "rule": "framing cases = {file, blob} x plaintext class {empty, 1 byte, JSON, JSON list, binary starting with '{' / '[' / byte 2 / zstd magic, random, zeros, periodic, large} x compression {off, levels} x extra_verify, each with truncations (0,1,15,16,17,31,32,half,len-1), extensions, bit flips (first/last byte, nonce/body/tag borders, random), altered uncompressed lengths; non-trivial = round trip ok and every tamper probe rejected (or an e2e repository / a key history with both accepted and refused passwords); distinct by full case text",
